@@ -30,11 +30,22 @@ pub struct ScriptedReader {
     pos: usize,
     script: Vec<Step>,
     step: usize,
+    /// bytes of the current chunk not yet handed out
+    avail: usize,
+    cycle: bool,
     pub stats: Arc<Stats>,
 }
 
 impl ScriptedReader {
+    /// The script is cycled.
     pub fn new(data: Vec<u8>, script: Vec<Step>) -> (Self, Arc<Stats>) {
+        Self::build(data, script, true)
+    }
+    /// The script is played once; afterwards everything that is left arrives at once.
+    pub fn once(data: Vec<u8>, script: Vec<Step>) -> (Self, Arc<Stats>) {
+        Self::build(data, script, false)
+    }
+    fn build(data: Vec<u8>, script: Vec<Step>, cycle: bool) -> (Self, Arc<Stats>) {
         let stats = Arc::new(Stats::default());
         (
             ScriptedReader {
@@ -42,6 +53,8 @@ impl ScriptedReader {
                 pos: 0,
                 script,
                 step: 0,
+                avail: 0,
+                cycle,
                 stats: stats.clone(),
             },
             stats,
@@ -54,28 +67,36 @@ impl AsyncRead for ScriptedReader {
         let me = &mut *self;
         me.stats.polls.fetch_add(1, Ordering::Relaxed);
         me.stats.max_request.fetch_max(buf.remaining(), Ordering::Relaxed);
-        let step = if me.script.is_empty() {
-            Step::Chunk(usize::MAX)
-        } else {
-            let s = me.script[me.step % me.script.len()];
-            me.step += 1;
-            s
-        };
-        match step {
-            Step::Pending => {
-                me.stats.pendings.fetch_add(1, Ordering::Relaxed);
-                cx.waker().wake_by_ref();
-                Poll::Pending
-            }
-            Step::Chunk(n) => {
-                let left = me.data.len() - me.pos;
-                let k = n.max(1).min(left).min(buf.remaining());
-                buf.put_slice(&me.data[me.pos..me.pos + k]);
-                me.pos += k;
-                me.stats.handed.fetch_add(k, Ordering::Relaxed);
-                Poll::Ready(Ok(()))
+        // A chunk models data that has arrived: reads are served from it (short reads when the
+        // caller wants more than is there) until it is used up; then the next step is taken.
+        if me.avail == 0 {
+            let step = if me.script.is_empty() || (!me.cycle && me.step >= me.script.len()) {
+                Step::Chunk(usize::MAX)
+            } else {
+                let s = me.script[me.step % me.script.len()];
+                me.step += 1;
+                s
+            };
+            match step {
+                Step::Pending => {
+                    me.stats.pendings.fetch_add(1, Ordering::Relaxed);
+                    cx.waker().wake_by_ref();
+                    return Poll::Pending;
+                }
+                Step::Chunk(n) => me.avail = n.max(1),
             }
         }
+        let left = me.data.len() - me.pos;
+        let k = me.avail.min(left).min(buf.remaining());
+        buf.put_slice(&me.data[me.pos..me.pos + k]);
+        me.pos += k;
+        me.avail -= k.min(me.avail);
+        if k == 0 {
+            // EOF (or a zero-sized request): the chunk is spent
+            me.avail = 0;
+        }
+        me.stats.handed.fetch_add(k, Ordering::Relaxed);
+        Poll::Ready(Ok(()))
     }
 }
 
